@@ -235,5 +235,21 @@ PROPS["C16"] = dict(
                  "the Go scheduler and the kernel decide the interleaving of the concurrent histories; they are perturbed, not owned"],
 )
 
+PROPS["C19"] = dict(
+    pkg="c19",
+    race=True,
+    schedule_dependent=True,
+    timeout_quick=1500,
+    subs=[
+        dict(name="concurrent", test="TestConcurrent", quick=250, thorough=15000, shards=16),
+    ],
+    technique="rapid-generated programs and call multisets executed by 2-16 goroutines on one shared value under the Go race detector (halt_on_error), each result compared with a sequential baseline on a separately compiled copy; canonical form of the shared value before/after",
+    level_text="exploration: witness-first programs (tier T2 with all features) shared in the 'deeply pre-walked' state, 28 operations (lookups, iteration, Walk, Unify, FillPath, Validate x3, Default, Eval, Syntax x3, Decode x2, MarshalJSON, yaml.Encode, Kind, Allows, Subsume, Equals, Expr, ReferencePath, Path/Pos/Doc, scalar accessors), start barrier and Gosched skew; a quarter of the cases use an independent context per goroutine instead.",
+    level_note="trusted: the Go race detector's happens-before analysis (a race report kills the process and the journalled case is the replay); the Go scheduler is not owned, so a race that needs one specific interleaving may be missed in a given run",
+    rule="case = program + state + per-goroutine call sequences (1-6 calls from 28 operations) + skew; checked: no race report, every call returns what the same call returns alone, canon(shared value) unchanged. Non-trivial = at least two goroutines executed calls that finalise or derive values (Unify, FillPath, Validate, Default, Eval, Syntax, Decode).",
+    assumptions=["the shared value is deeply pre-walked (Fields(All), List, Default, three Syntax profiles and MarshalJSON on every sub-value) before it is shared: sharing a fresh or merely validated value races on the unchanged tree (known finding F19, replayed as witness)",
+                 "programs whose evaluation contains a fatal error are skipped (they still race after the deep pre-walk)"],
+)
+
 NOT_APPLICABLE = {}
 HOOK_COMMITS = []
